@@ -47,6 +47,9 @@ pub struct GenOpts {
     pub short_hint_pct: u64,
     /// chance (percent) that the caller panics while it holds a partly consumed chunk
     pub consumer_panic_pct: u64,
+    /// chance (percent) that a one-shot chunk pull asks for zero elements (a no-op by
+    /// documentation)
+    pub zero_pct: u64,
 }
 
 impl GenOpts {
@@ -83,6 +86,7 @@ impl GenOpts {
             nonfused_pct: 0,
             short_hint_pct: 0,
             consumer_panic_pct: 0,
+            zero_pct: 0,
         }
     }
 }
@@ -121,6 +125,9 @@ pub fn opts_for(prop: &str) -> GenOpts {
         "C01" => {
             o.w_composite = 12;
             o.stale_pct = 25;
+            // sources that would yield again after their first None: the source sequence ends
+            // there, and nothing may be delivered twice (seeded change C01-r7)
+            o.nonfused_pct = 15;
         }
         "C02" => {
             // "take the rest" chunk sizes at the edge of usize (known-size kinds only)
@@ -255,6 +262,9 @@ pub fn opts_for(prop: &str) -> GenOpts {
             o.partial_pct = 40;
             o.call_granular = true;
             o.call_granular_pct = 50;
+            // next_chunk(0) is a no-op on the underlying iterator, so it must be one on the
+            // adaptor (seeded change C13-r7)
+            o.zero_pct = 6;
         }
         "C19" => {
             // "take the rest" chunk sizes at the edge of usize (known-size kinds only)
@@ -301,6 +311,8 @@ pub fn opts_for(prop: &str) -> GenOpts {
         }
         "C18" => {
             o.panic_sites = vec![PanicSite::WrappedNext, PanicSite::Clone, PanicSite::Closure];
+            // a panic while another thread has called skip_to_end (seeded change C18-r7)
+            o.w_skip = 5;
             o.w_composite = 15;
             o.min_threads = 2;
             o.max_threads = 3;
@@ -443,6 +455,8 @@ fn gen_ops(rng: &mut Rng, o: &GenOpts, len: usize, is_thread: bool, huge_pct: u6
                 let huge = rng.chance(huge_pct, 100);
                 let c = if huge {
                     huge_chunk_size(rng)
+                } else if o.zero_pct > 0 && rng.chance(o.zero_pct, 100) {
+                    0
                 } else {
                     chunk_size(rng, len)
                 };
